@@ -156,6 +156,9 @@ pub fn var(i: usize) -> Var {
 
 /// Compact rendering of a node table for messages: `[v0:0/1 v1:2/1 ...]` (constants omitted).
 pub fn fmt_nodes(nodes: &[BddNode]) -> String {
+    if nodes.len() > 64 {
+        return format!("[{} entries, last {}]", nodes.len(), nodes.last().map(|n| format!("v{}:{}/{}", n.var().value(), n.lo().value(), n.hi().value())).unwrap_or_default());
+    }
     let mut s = String::from("[");
     for (i, n) in nodes.iter().enumerate() {
         if i < 2 && n.var().is_constant() {
